@@ -351,7 +351,7 @@ def main():
     for r in internal:
         print("INTERNAL", r[0][1], r[0][4], r[2])
     if a.out:
-        json.dump([dict(path=j[0], func=j[1], op=j[3], desc=j[4], status=st, hits=h) for j, st, h in res], open(a.out, "w"), indent=1)
+        json.dump([dict(path=j[0], func=j[1], idx=j[2], op=j[3], desc=j[4], status=st, hits=h) for j, st, h in res], open(a.out, "w"), indent=1)
 
 
 if __name__ == "__main__":
